@@ -3,6 +3,8 @@ package sim
 import (
 	"encoding/base64"
 	"fmt"
+	cvmtypes "github.com/certikfoundation/shentu/x/cvm/types"
+	authtypes "github.com/cosmos/cosmos-sdk/x/auth/types"
 	"time"
 
 	"github.com/cosmos/cosmos-sdk/crypto/keys/ed25519"
@@ -82,6 +84,15 @@ func GovProfile(seed int64, out *Recorder, nOps int) *Chain {
 	aliases := []string{"", "alpha", "beta", "cert0", "gamma"}
 	certKinds := []string{"identity", "general", "auditing", "proof", "compilation", "oracleoperator", "shieldpoolcreator"}
 	for i := 0; i < nOps && c.Halted == ""; i++ {
+		// once in a while somebody tries to pay coins into the module's account through the VM (a call carrying value): the
+		// bank refuses plain sends to module accounts, and the books of this module rely on it (own random stream)
+		if r3 := newRng(seed*131 + int64(i)); r3.Intn(40) == 0 {
+			from := r3.Intn(cfg.NAcc)
+			ma := authtypes.NewModuleAddress("gov")
+			value := uint64(1 + r3.Intn(5000))
+			m := cvmtypes.NewMsgCall(c.Accts[from].Addr.String(), ma.String(), value, nil)
+			c.DoGas(from, 3000000, DefaultFee, []D{{"t": "cvm.call", "caller": Hex(c.Accts[from].Addr), "callee": Hex(ma), "kind": "none", "value": value, "data": "", "expect": "any"}}, nil, &m)
+		}
 		ctx := c.Ctx()
 		gk := c.App.VerifGovKeeper()
 		props := gk.GetProposals(ctx)
